@@ -297,6 +297,9 @@ static void write_elf_text_and_data(
     file.write_int8(memory->read8(i));
   }
 
+  // The alignment padding that follows is not part of the section.
+  elf->sections_size.text = file.tell() - elf->sections_offset.text;
+
   if (alignment > 1)
   {
     int count = memory->high_address - memory->low_address + 1;
@@ -308,8 +311,6 @@ static void write_elf_text_and_data(
       count++;
     }
   }
-
-  elf->sections_size.text = file.tell() - elf->sections_offset.text;
 
   elf->e_shnum++;
 }
